@@ -6,6 +6,7 @@ package harness
 
 import (
 	"fmt"
+	"os"
 	"regexp"
 	"runtime"
 	"strings"
@@ -22,6 +23,12 @@ type c12Case struct {
 	Items []string `json:"items"` // keys of c12Elems or stanza kinds
 	Cut   int      `json:"cut"`   // byte offset into the feed; clamped to its length
 	SM    bool     `json:"sm"`
+	// connection variants: STARTTLS (optionally capped at TLS 1.2), traffic logger, and whether the last bytes and the
+	// end of the stream leave the server in one TCP segment
+	TLS      bool `json:"tls,omitempty"`
+	TLS12    bool `json:"tls12,omitempty"`
+	Logger   bool `json:"logger,omitempty"`
+	Together bool `json:"together,omitempty"`
 }
 
 var c12Rich = map[string]string{
@@ -133,6 +140,12 @@ func genC12(t *rapid.T) c12Case {
 		c.Items = append(c.Items, rapid.SampledFrom(c12Keys).Draw(t, "item"))
 	}
 	c.SM = rapid.Bool().Draw(t, "sm")
+	if rapid.IntRange(0, 2).Draw(t, "tls") == 0 {
+		c.TLS = true
+		c.TLS12 = rapid.Bool().Draw(t, "tls12")
+	}
+	c.Logger = rapid.IntRange(0, 2).Draw(t, "logger") == 0
+	c.Together = rapid.Bool().Draw(t, "together")
 	data, ends, _ := c.feed()
 	switch rapid.IntRange(0, 3).Draw(t, "cutClass") {
 	case 0: // exactly between two elements
@@ -204,7 +217,13 @@ func runC12(c c12Case) vh.Result {
 	res.NonTrivial = cls != "between-elements" && cls != "boundary"
 	baseline := libGoroutines()
 	const interval = 15 * time.Millisecond
-	script := &peer.Script{Mechs: []string{"PLAIN"}, OfferSM: c.SM, SMId: "sm-c12"}
+	script := &peer.Script{Mechs: []string{"PLAIN"}, OfferSM: c.SM, SMId: "sm-c12", OfferTLS: c.TLS, TLS12: c.TLS12, Cert: "valid"}
+	if c.TLS {
+		res.Label("tls")
+	}
+	if c.Logger {
+		res.Label("logger")
+	}
 	failc := make(chan string, 1)
 	cutDone := make(chan struct{})
 	var pconn *peer.Conn
@@ -215,8 +234,12 @@ func runC12(c c12Case) vh.Result {
 			failc <- fmt.Sprint(out.Steps)
 			return
 		}
-		pc.Send(data[:cut])
-		pc.HalfClose()
+		if c.Together {
+			pc.SendAndCloseTogether(data[:cut])
+		} else {
+			pc.Send(data[:cut])
+			pc.HalfClose()
+		}
 		close(cutDone)
 		pc.Drain(20 * time.Second) // keep reading what the client still writes (answers, keepalives)
 	})
@@ -225,10 +248,17 @@ func runC12(c c12Case) vh.Result {
 		return res
 	}
 	defer srv.Close()
-	cl, rec, _, err := newTestClientCfg(srv.Addr, clientOpt{Insecure: true, SM: c.SM, Keepalive: interval})
+	cl, rec, _, err := newTestClientCfg(srv.Addr, clientOpt{Insecure: !c.TLS, SM: c.SM, Keepalive: interval})
 	if err != nil {
 		res.Fail("harness", "NewClient: %v", err)
 		return res
+	}
+	if c.Logger {
+		if f, err := os.CreateTemp("", "verif-c12-*.log"); err == nil {
+			defer os.Remove(f.Name())
+			defer f.Close()
+			xmpp.VerifGetTransport(cl).LogTraffic(f)
+		}
 	}
 	if err := cl.Connect(); err != nil {
 		res.Fail("harness-connect", "Connect: %v", err)
@@ -347,7 +377,7 @@ func runC12(c c12Case) vh.Result {
 
 var c12 = vh.Define(&vh.Def[c12Case]{
 	Property: "C12", Name: "cut",
-	Rule: "an inbound stream of 1-10 elements (plain and rich stanzas: entities, character references, CDATA incl. ]]> splitting, attributes containing > and quotes, comments, nested same-name descendants; <r/>, <a/>, features) is cut at a generated byte offset (one quarter exactly between elements, the rest uniformly), with and without stream management; the peer sends the prefix, half-closes and keeps draining; keepalive interval 15 ms; oracle: at most one error callback and one Disconnected event and at least one of each within the margin, the event carries the SM id when SM is on, every stanza that ended before the cut is routed once and no other, no goroutine with a library frame that did not exist before the case survives (runtime.Stack poll), no keepalive write reaches the peer afterwards; non-trivial = the cut falls strictly inside an element",
+	Rule: "an inbound stream of 1-10 elements (plain and rich stanzas: entities, character references, CDATA incl. ]]> splitting, attributes containing > and quotes, comments, nested same-name descendants; <r/>, <a/>, features) is cut at a generated byte offset (one quarter exactly between elements, the rest uniformly), with and without stream management, over plain TCP or STARTTLS (TLS 1.3 or capped at 1.2), with and without the traffic logger, the prefix and the end of the stream leaving the server in separate segments or in one; the peer sends the prefix, half-closes and keeps draining; keepalive interval 15 ms; oracle: at most one error callback and one Disconnected event and at least one of each within the margin, the event carries the SM id when SM is on, every stanza that ended before the cut is routed once and no other, no goroutine with a library frame that did not exist before the case survives (runtime.Stack poll), no keepalive write reaches the peer afterwards; non-trivial = the cut falls strictly inside an element",
 	Quick: 300, Thorough: 6000, Journal: true,
 	Gen: genC12, Run: runC12,
 })
@@ -370,7 +400,7 @@ func TestC12_alloffsets(t *testing.T) {
 			if k%n != sh {
 				continue
 			}
-			c12.RunCase(t, c12Case{Items: items, Cut: off, SM: (si+off)%2 == 0})
+			c12.RunCase(t, c12Case{Items: items, Cut: off, SM: (si+off)%2 == 0, TLS: off%3 == 0, TLS12: off%6 == 0, Logger: off%2 == 1 || off%6 == 0, Together: off%4 < 2})
 		}
 	}
 	vh.Extra("C12", "C12_cut", "offsets_enumerated", int64(k))
